@@ -11,7 +11,7 @@ from __future__ import annotations
 import ast
 from dataclasses import dataclass, field
 
-from . import ops, opspec, tmpl
+from . import ops, opsem, opspec, tmpl
 from .core import AnalysisError, Finding
 from .flow import Sym
 from .ops import PathRec
@@ -759,6 +759,15 @@ def analyse(repo: Repo, tier: str = "quick") -> OpReport:  # noqa: PLR0912, PLR0
                     r0 = all_recs[len(all_recs) // 2]
                     rep.samples.append({"construct": r0.construct, "variant": r0.variant, "path": r0.trace_str(), "result": str(r0.result)})
 
+    # ---- both siblings evaluated against scripted children (E8)
+    units, results = opsem.check_operators(repo, "C01 DIFF", tier)
+    rep.count("diff_operators", units["operators"])
+    rep.count("diff_skeletons", units["skeletons"])
+    rep.count("diff_scripts", units["scripts"])
+    for con, label, n, bad in results:
+        rep.oblige({"C01"}, "DIFF", con, f"parse() and the emitted code agree on {n} scripted child/trivia outcomes ({label.split('::')[-1]})", True)
+        for cat, detail in bad:
+            rep.oblige({"C01"}, "DIFF", con, cat, False, Finding("DIFF", con, cat, f"{short(con)}: {cat}; e.g. {detail}", {"variant": label}))
     # ---- Rule
     analyse_rules(repo, rep, masks, tier)
     # ---- parse_trivia siblings
